@@ -630,6 +630,33 @@ pub fn run(ctx: &ChildCtx, sh: &mut Shard) {
                 }
             }
         }
+        // a length-like field raised by k with k junk bytes added (at the end of the encoding or
+        // somewhere behind the field): a decoder that reads an inner value from a length-delimited
+        // slice without checking that the slice was used up accepts this second encoding
+        if n > 0 && !is_fragile {
+            let sweep = !heavy && n <= 600;
+            let tries = if sweep { n * 4 } else { 16 };
+            for t in 0..tries {
+                let (w, off) = if sweep { ([4usize, 2, 8, 1][t / n], t % n) } else { (*r.pick(&[1usize, 2, 4, 8]), r.below(n as u64) as usize) };
+                if off + w > n {
+                    continue;
+                }
+                let v = util::read_be(&b, off, w);
+                let k = 1 + r.below(4);
+                let max = if w == 8 { u64::MAX } else { (1u64 << (8 * w)) - 1 };
+                // plausible lengths only: the field cannot describe more than the encoding holds
+                if v > n as u64 || v + k > max {
+                    continue;
+                }
+                let mut m = b.clone();
+                util::write_be(&mut m, off, w, v + k);
+                let at = if r.chance(1, 2) { n } else { off + w + r.below((n - off - w) as u64 + 1) as usize };
+                for _ in 0..k {
+                    m.insert(at, r.next() as u8);
+                }
+                run.eval(e, idx, "inflate_append", &m, &b);
+            }
+        }
         // 16-bit bitmap sweep
         if let Some(at) = e.bitmap_at {
             if n >= at + 2 && (idx / ntypes) % 4 == 0 {
